@@ -29,6 +29,10 @@ pub struct Case {
     pub spec: SourceSpec,
     pub style: String,
     pub damage: Vec<String>,
+    /// > 0: when the whole stream is at most this long, ALL 2^(n-1) compositions are enumerated in this run (twice:
+    /// plain, and with a not-ready result before every chunk)
+    #[serde(default)]
+    pub all_compositions: u8,
 }
 
 #[derive(Clone, Copy)]
@@ -49,8 +53,9 @@ impl Prop for C05 {
         }
     }
 
-    fn gen(&self, rng: &mut Rng, _tier: Tier, _run: u64) -> Case {
-        let tiny = rng.chance(1, 6);
+    fn gen(&self, rng: &mut Rng, tier: Tier, _run: u64) -> Case {
+        let sweep = rng.chance(1, 40);
+        let tiny = sweep || rng.chance(1, 6);
         let shape = if tiny { ShapeCfg::tiny() } else { ShapeCfg::swarm(rng) };
         let mut damage_fired: Vec<String> = Vec::new();
         let (stream, head_len, toks) = match rng.below(10) {
@@ -82,18 +87,29 @@ impl Prop for C05 {
             }
         };
         let max_payload = if rng.chance(1, 300) { 65536 } else { 1024 };
-        let payload = if tiny && rng.chance(1, 2) { vec![] } else { gen_payload(rng, max_payload) };
+        let payload = if sweep {
+            {
+                let n = rng.usize(0, 2);
+                rng.bytes(n)
+            }
+        } else if tiny && rng.chance(1, 2) {
+            vec![]
+        } else {
+            gen_payload(rng, max_payload)
+        };
         let total = head_len + payload.len();
         let opts = TraceOpts { is_async: true, eintr: false, pend: rng.chance(4, 5), after: true, cross: false, max_events: 4096 };
         let (style, trace) = gen_trace(rng, head_len, total, &toks, &opts);
         let fault = if rng.chance(1, 5) && total > 0 {
             let at = if rng.chance(3, 4) { rng.usize(0, head_len.max(1) - 0).min(total) } else { rng.usize(0, total) } as u64;
             let kind = if rng.chance(1, 3) { FaultKind::Eof } else { FaultKind::Err(*rng.pick(&ErrKind::INJECTABLE)) };
-            Some(Fault { at, kind })
+            let once = matches!(kind, FaultKind::Err(_)) && rng.chance(1, 3);
+            Some(Fault { at, kind, once })
         } else {
             None
         };
-        Case { stream, payload, parts: rng.chance(1, 3), spec: SourceSpec { trace, fault }, style: STYLES[style].to_string(), damage: damage_fired }
+        let all_compositions = if sweep { if tier == Tier::Thorough { 17 } else { 14 } } else { 0 };
+        Case { stream, payload, parts: rng.chance(1, 3), spec: SourceSpec { trace, fault }, style: STYLES[style].to_string(), damage: damage_fired, all_compositions }
     }
 
     fn run(&self, case: &Case, record: bool) -> RunReport {
@@ -110,6 +126,70 @@ impl Prop for C05 {
         let src_b = SrcHandle::new(&core_b, data.clone(), SourceSpec { trace: vec![], fault: case.spec.fault });
         let mode_b = if case.parts { Mode::SyncParts } else { Mode::SyncParse };
         let b = run_parser(&core_b, &src_b, mode_b, 0, true, &[], cap);
+
+        // exhaustive tier for short streams: every composition into chunks, plain and with a not-ready result
+        // (alternately inline / deferred wake) before every chunk
+        let n = data.len();
+        if case.all_compositions > 0 && n >= 1 && n <= case.all_compositions as usize {
+            let mode_a = if case.parts { Mode::AsyncParts } else { Mode::AsyncParse };
+            let mut enumerated = 0u64;
+            'sweep: for pass in 0..2 {
+                for mask in 0..(1u32 << (n - 1)) {
+                    let mut trace = Vec::new();
+                    let mut len = 1u32;
+                    let mut k = 0u32;
+                    let mut push = |trace: &mut Vec<crate::wire::Ev>, len: u32| {
+                        if pass == 1 {
+                            let wake = if k % 2 == 0 { crate::wire::Wake::Inline } else { crate::wire::Wake::After(1) };
+                            trace.push(crate::wire::Ev::Pend { wake, spurious: 0 });
+                            k += 1;
+                        }
+                        trace.push(crate::wire::Ev::Give(len));
+                    };
+                    for bit in 0..(n - 1) {
+                        if mask & (1 << bit) != 0 {
+                            push(&mut trace, len);
+                            len = 1;
+                        } else {
+                            len += 1;
+                        }
+                    }
+                    push(&mut trace, len);
+                    let core = SimCore::new();
+                    let spec = SourceSpec { trace, fault: case.spec.fault };
+                    let src = SrcHandle::new(&core, data.clone(), spec.clone());
+                    let a = run_parser(&core, &src, mode_a, 8 * n as u64 + 64, true, &[], cap);
+                    enumerated += 1;
+                    let same_payload = match (&a.payload, &b.payload) {
+                        (Some(x), Some(y)) => x.bytes == y.bytes && x.err == y.err,
+                        (None, None) => true,
+                        _ => false,
+                    };
+                    if a.exec_violation.is_some() || a.outcome != b.outcome || !same_payload {
+                        let class = if a.exec_violation.is_some() {
+                            "executor-lost-wake"
+                        } else {
+                            match (&a.outcome, &b.outcome) {
+                                (Outcome::Ok(_), Outcome::Ok(_)) if a.outcome == b.outcome => "trailing-data-differs",
+                                (Outcome::Ok(_), Outcome::Ok(_)) => "content-differs",
+                                (Outcome::Ok(_), _) => "async-accepts-blocking-rejects",
+                                (_, Outcome::Ok(_)) => "async-rejects-blocking-accepts",
+                                _ => "error-kind-differs",
+                            }
+                        };
+                        rep.violate(class, format!("composition mask {mask:#x} (pass {pass}) of a {n}-byte stream: async: {} | blocking: {}", a.outcome.short(), b.outcome.short()));
+                        let single = Case { spec, all_compositions: 0, ..case.clone() };
+                        rep.reduced = serde_json::to_value(&single).ok();
+                        break 'sweep;
+                    }
+                }
+            }
+            rep.count("streams_with_every_composition_enumerated", 1);
+            rep.count("compositions_enumerated", enumerated);
+            if rep.violation.is_some() {
+                return rep;
+            }
+        }
 
         // async side: scripted schedule
         let core_a = SimCore::new();
@@ -221,7 +301,7 @@ impl Prop for C05 {
     }
 
     fn rule(&self) -> String {
-        "Each run: a seeded byte stream — (a) crate-encoded model message, (b) reference-encoded wire tree incl. forms the crate never emits, (c) either damaged by 1-3 Byzantine-printer / in-flight faults (so malformed and truncated streams are in the corpus), (d) tiny messages — plus payload. The blocking parser reads it unfragmented and always ready; the async parser reads the same bytes under a seeded schedule (composition into chunks, Pending with inline/deferred wake, spurious polls) on the scripted executor; an optional identical fault (EOF or I/O error kind at a byte offset) is applied to both. Oracle: equal outcome (content, offending tag, I/O kind, panic class) and equal trailing data, for parse and parse_parts; executor invariants (no lost wake-up, bounded polls). distinct_nontrivial = distinct hashes of the async source's observed call sequence among runs where a chunk boundary or Pending fell strictly inside the bytes the parser consumed (>= 9 consumed)."
+        "Each run: a seeded byte stream — (a) crate-encoded model message, (b) reference-encoded wire tree incl. forms the crate never emits, (c) either damaged by 1-3 Byzantine-printer / in-flight faults (so malformed and truncated streams are in the corpus), (d) tiny messages — plus payload; 1 run in 40 takes a stream of at most 14 (quick) / 17 (thorough) bytes and enumerates ALL 2^(n-1) compositions of it, plain and with a not-ready result before every chunk ('compositions_enumerated'). The blocking parser reads it unfragmented and always ready; the async parser reads the same bytes under a seeded schedule (composition into chunks, Pending with inline/deferred wake, spurious polls) on the scripted executor; an optional identical fault (EOF or I/O error kind at a byte offset) is applied to both. Oracle: equal outcome (content, offending tag, I/O kind, panic class) and equal trailing data, for parse and parse_parts; executor invariants (no lost wake-up, bounded polls). distinct_nontrivial = distinct hashes of the async source's observed call sequence among runs where a chunk boundary or Pending fell strictly inside the bytes the parser consumed (>= 9 consumed)."
             .into()
     }
     fn assumptions(&self) -> Vec<String> {
